@@ -194,6 +194,18 @@ def run(ctx):
         paths = gen_paths(rng, rng.randint(1, 5))
         dangling = (i % 4 == 3)
         ops = gen_ops(rng, paths, rng.randint(2, maxlen), dangling=dangling)
+        # the first sequences are fixed: paths whose names look like the store's own temporary / metadata files, committed next to
+        # siblings, re-linked, resolved after a reopen
+        DIRECTED = [
+            [["store", "k1", 1], ["store", "k2", 2], ["sync", [["/d/x.tmp", "k1"]]], ["sync", [["/d/other", "k2"]]], ["fetch_paths", ["/d/x.tmp"]],
+             ["sync", [["/d/other", "k1"]]], ["fetch_paths", ["/d/x.tmp", "/d/other"]], ["reopen"], ["fetch_paths", ["/d/x.tmp"]]],
+            [["store", "k1", 1], ["store", "k2", 2], ["sync", [["/a.1.x.tmp", "k1"], ["/k.meta", "k2"]]], ["reopen"], ["fetch_paths", ["/a.1.x.tmp", "/k.meta"]],
+             ["sync", [["/zz", "k2"]]], ["fetch_paths", ["/a.1.x.tmp"]], ["fetch", "k1"], ["has", "k2"]],
+            [["store", "k1", 3], ["sync", [["/e/x.tmp", "k1"]]], ["store", "k2", 4], ["sync", [["/e/y.tmp", "k2"], ["/e/z", "k2"]]], ["fetch_paths", ["/e/x.tmp", "/e/y.tmp"]],
+             ["reopen"], ["sync", [["/e/z", "k1"]]], ["fetch_paths", ["/e/x.tmp", "/e/y.tmp", "/e/z"]]],
+        ]
+        if i < len(DIRECTED) and not dangling:
+            ops = [list(o) for o in DIRECTED[i]]
         if ctx.get("replay") and i == 0:
             rp = json.load(open(ctx["replay"]))
             inp = rp.get("violation", {}).get("input") or {}
